@@ -8,6 +8,7 @@ import (
 	"encoding/json"
 	"fmt"
 	"os"
+	"time"
 )
 
 var (
@@ -164,3 +165,13 @@ func verifGuard(m interface{}, mu interface{}, name string) {}
 
 // intrinsic: the cell at p may only be accessed through sync/atomic while other goroutines run.
 func verifWatch(p interface{}, name string) {}
+
+// intrinsic: the engine's virtual-time sleep.
+func verifRealSleep(d time.Duration) { time.Sleep(d) }
+
+// intrinsic: park until cond() holds (cond must be side-effect free and must not block).
+func verifBlockUntil(cond func() bool) {
+	for !cond() {
+		time.Sleep(time.Microsecond)
+	}
+}
